@@ -12,7 +12,7 @@ func C15(c *Ctx) int {
 	}
 	kF, kS, kN := 3, 2, 3
 	if c.Thorough() {
-		kF, kS, kN = 4, 3, 3
+		kF, kS, kN = 4, 2, 3
 	}
 	hs := []Harness{
 		{Name: "rang3.Rel", Pkg: "internal/lexergen/rang3", Func: "H_Rel", Reach: []string{"contains", "intersects"},
@@ -26,8 +26,18 @@ func C15(c *Ctx) int {
 		}
 		hs = append(hs, h)
 	}
+	subs := [][2]int{}
 	for ka := 1; ka <= kS; ka++ {
 		for kb := 1; kb <= kS; kb++ {
+			subs = append(subs, [2]int{ka, kb})
+		}
+	}
+	if c.Thorough() {
+		subs = append(subs, [2]int{3, 1}, [2]int{1, 3}, [2]int{3, 2}, [2]int{2, 3})
+	}
+	for _, sh := range subs {
+		{
+			ka, kb := sh[0], sh[1]
 			h := Harness{Name: fmt.Sprintf("rang3.Subtract[ka=%d,kb=%d]", ka, kb), Pkg: "internal/lexergen/rang3", Func: "H_Subtract",
 				Params: map[string]int{"ka": ka, "kb": kb}, Bounds: fmt.Sprintf("%d minus %d arbitrary ranges, arbitrary probe code point", ka, kb),
 				Reach: []string{"subtract-empty"}}
